@@ -101,6 +101,20 @@ def scenario(idm, rng, kind):
         fill(big_sp, big_sub, rng.choice([0, 5, 30]))
         for _ in range(nthreads):
             sc["procs"].append([get("X", big_sp, big_sub, collide=rng.choice([0.0, 0.0, 0.7]))])
+    elif kind == "large-cleanup":
+        # the clean-up ladder INSIDE get_id: a subspace too large to enumerate, more rows than max_ids, the first 8
+        # samples forced to collide -> cleanup() runs inside the caller's transaction, then a scripted sample Z; the
+        # other connection asks for another (or the same) description and is made to draw the same Z
+        big_sp, big_sub = sps["8"], Sub(0, 256)
+        sc["max_ids"] = 4
+        fill(big_sp, big_sub, rng.choice([6, 9]))
+        used = {o["id"] for o in sc["init"]}
+        z = next(i for i in member_ids(idm, big_sp, big_sub, 40, rng) if i not in used)
+        g0 = get("X", big_sp, big_sub)
+        g0["collide_first"], g0["then"] = 8, [z]
+        g1 = get(rng.choice(["Y", "Y", "X"]), big_sp, big_sub)
+        g1["then"] = [z]
+        sc["procs"] = [[g0], [g1]]
     elif kind == "diff-desc":
         free = rng.choice([0, 1, 2])
         fill(sp_small, small, max(0, min(size, 600) - free) if size <= 600 else 0)
@@ -238,7 +252,7 @@ def scenario(idm, rng, kind):
     return sc
 
 
-KINDS = ["same-desc-small", "same-desc-large", "diff-desc", "get-vs-admin", "upload", "mark-race", "reads-race", "countall", "mix", "open"]
+KINDS = ["same-desc-small", "same-desc-large", "large-cleanup", "diff-desc", "get-vs-admin", "upload", "mark-race", "reads-race", "countall", "mix", "open"]
 
 
 def all_strings(sc):
@@ -340,6 +354,17 @@ def judge(ctx, sc, obs, run_reply, serial_reply, open_reply, cov):
         if len(ids) != 1 or not next(iter(ids)).startswith("ID:"):
             ctx.violations.append({"signature": {"class": "same-description-several-ids", "scenario": sc["kind"]},
                                    "what": f"concurrent requests for one description returned {sorted(ids)}", "case": case, "observed": brief})
+            found.append("same-description-several-ids")
+    if sc["kind"] == "large-cleanup" and complete:
+        d0, d1 = sc["procs"][0][0]["desc"], sc["procs"][1][0]["desc"]
+        r0, r1 = obs["results"][0][0], obs["results"][1][0]
+        if d0 != d1 and r0 == r1 and r0.startswith("ID:"):
+            ctx.violations.append({"signature": {"class": "one-id-for-two-descriptions", "scenario": sc["kind"]},
+                                   "what": f"different descriptions got the same id {r0} while free ids existed (clean-up inside get_id)", "case": case, "observed": brief})
+            found.append("one-id-for-two-descriptions")
+        if d0 == d1 and r0 != r1:
+            ctx.violations.append({"signature": {"class": "same-description-several-ids", "scenario": sc["kind"]},
+                                   "what": f"concurrent requests for one description returned {sorted([r0, r1])}", "case": case, "observed": brief})
             found.append("same-description-several-ids")
     if sc["kind"] == "diff-desc" and complete:
         n_new = sum(len(p) for p in sc["procs"])
@@ -552,7 +577,7 @@ def plan(ctx, idm):
             specs = []
             if kind != "open":
                 for first in range(min(2, len(sc["procs"]))):
-                    for k in range(0, ctx.pick(9, 14)):
+                    for k in range(0, ctx.pick(9, 14) if kind != "large-cleanup" else 20):   # (a get_id with 8 collisions and a clean-up has ~14 points)
                         specs.append({"p": "preempt", "first": first, "k": k, "seed": rng.randrange(2**30)})
             for _ in range(ctx.pick(2, 8)):
                 specs.append({"p": "random", "seed": rng.randrange(2**30), "p_block": rng.choice([0.2, 0.6, 1.0])})
